@@ -110,14 +110,14 @@ PROPS = {
         "assumptions": ["hashicorp/golang-lru v0.6.0 simplelru and container/list are modelled from their source; handlers run on goroutines: the harness waits for quiescence (bounded) before reading the invocation multiset"],
     },
     "C08": {
-        "theorems": ["SV.Props.C08.source_flush_test_is_the_models", "SV.Props.C08.get_is_logical_map", "SV.Props.C08.has_agrees_with_get", "SV.Props.C08.put_then_read", "SV.Props.C08.remove_then_read", "SV.Props.C08.flush_invisible", "SV.Props.C08.history_refines_map", "SV.Props.C08.mem_is_a_map", "SV.Props.C08.legacy_F8"],
+        "theorems": ["SV.Props.C08.batch_operations_have_the_models_effects", "SV.Props.C08.source_flush_test_is_the_models", "SV.Props.C08.get_is_logical_map", "SV.Props.C08.has_agrees_with_get", "SV.Props.C08.put_then_read", "SV.Props.C08.remove_then_read", "SV.Props.C08.flush_invisible", "SV.Props.C08.history_refines_map", "SV.Props.C08.mem_is_a_map", "SV.Props.C08.legacy_F8"],
         "modules": ["SV.Props.C08"],
         "runs": [{"component": "persist", "thorough_seeds": 2}],
         "rule": "random Put/Remove/tick/Close+reopen/RangeKeys histories over 3-7 keys (values nil, empty, short, long) on leveldb.DB, leveldb.SerialDB, memorydb and the sharded persister over each (2,3,5 shards), MaxBatchSize 1..100, real LevelDB directories, timer flushes by real waiting (BatchDelaySeconds=1); Get/Has of every key after every operation; distinct = distinct (operation kind, full read-back) pairs",
         "assumptions": ["goleveldb contract: Write(batch) applies the batch atomically and in order, Get/Has/NewIterator read the applied writes, Close/Open preserve them", "timer flush is modelled as an explicit tick event; the harness waits BatchDelaySeconds+0.35s for it"],
     },
     "C09": {
-        "theorems": ["SV.Props.C09.reopen_preserves_map", "SV.Props.C09.reopen_keeps_invariant", "SV.Props.C09.cycles", "SV.Props.C09.range_after_close"],
+        "theorems": ["SV.Props.C09.batch_operations_have_the_models_effects", "SV.Props.C09.reopen_preserves_map", "SV.Props.C09.reopen_keeps_invariant", "SV.Props.C09.cycles", "SV.Props.C09.range_after_close"],
         "modules": ["SV.Props.C09"],
         "runs": [{"component": "persist", "thorough_seeds": 2}],
         "rule": "random Put/Remove/tick/Close+reopen/RangeKeys histories over 3-7 keys (values nil, empty, short, long) on leveldb.DB, leveldb.SerialDB, memorydb and the sharded persister over each (2,3,5 shards), MaxBatchSize 1..100, real LevelDB directories, timer flushes by real waiting (BatchDelaySeconds=1); Get/Has of every key after every operation; distinct = distinct (operation kind, full read-back) pairs",
